@@ -689,7 +689,13 @@ pub struct Built<Cfg: GenericConfig<D, F = F>> {
 
 /// Builds the program with the real gadgets. Every result is registered as public input.
 pub fn build_program<Cfg: GenericConfig<D, F = F>>(prog: &Program, config: &CircuitConfig) -> Built<Cfg> {
+    build_program_with::<Cfg>(prog, config, &|_| {})
+}
+
+/// Same, with a hook that may configure the fresh builder (e.g. `set_domain_separator`).
+pub fn build_program_with<Cfg: GenericConfig<D, F = F>>(prog: &Program, config: &CircuitConfig, pre: &dyn Fn(&mut CircuitBuilder<F, D>)) -> Built<Cfg> {
     let mut builder = CircuitBuilder::<F, D>::new(config.clone());
+    pre(&mut builder);
     let mut st: Vec<TVal> = Vec::new();
     let mut input_targets = Vec::new();
     for t in &prog.inputs {
